@@ -28,6 +28,9 @@ pub struct RefState {
     pub stake_txs_seen: BTreeSet<TxHash>,
     /// the last few coins this history has spent, with their data (bookkeeping for alphabets only: second spends of them)
     pub spent_recently: Vec<(CoinID, CoinDataHeight)>,
+    /// the DOSC speed the previous block was sealed with, as this model recorded it (None: not known to the model - a root,
+    /// a re-labelled state - and read from the real history instead).  Mint rewards are bounded against it.
+    pub prev_dosc_speed: Option<u128>,
 }
 
 #[derive(Clone, Debug, PartialEq, Eq)]
@@ -409,8 +412,8 @@ impl RefState {
             return rej("doscmint:degenerate", "");
         }
         let speed = (if tip910 { 100u128 } else { 1 }) * (1u128 << difficulty) / age as u128;
-        let prev = match self.height.checked_sub(1).and_then(|h| (ctx.header_at)(h)) {
-            Some(h) => h.dosc_speed,
+        let prev = match self.prev_dosc_speed.or_else(|| self.height.checked_sub(1).and_then(|h| (ctx.header_at)(h)).map(|h| h.dosc_speed)) {
+            Some(s) => s,
             None => return rej("doscmint:no-previous-header", ""),
         };
         let reward = ref_reward(speed, prev, difficulty, tip910);
@@ -422,6 +425,7 @@ impl RefState {
     pub fn open_next(&self) -> RefState {
         let mut n = self.clone();
         n.height += 1;
+        n.prev_dosc_speed = Some(self.dosc_speed);
         let epoch = n.height / 200_000;
         // a stake is locked "through the end of the epoch numbered by the stake's end field"
         n.stakes.retain(|_, v| v.e_post_end >= epoch);
